@@ -29,6 +29,20 @@ PROPS = {
         "level_text": "converge is a Lean theorem over all histories and all k: re-adding a source keeps the meaning (meaningEq) and the shape is literally stable from the first repetition. It composes samples_accepted (C03) with absorb_stable and absorbed_upper, both proved for all well-formed shapes by induction over merger's arms. Only closes on the code after the D6/D7 repairs. merger, is_subset, from_sources are compared with the real code on the reachable domain each run, and stability/meaning are re-evaluated on the real from_sources.",
         "level_note": "Trusted: Lean kernel; models of merger.rs, subset.rs, shape/mod.rs (differential testing); reference semantics for the meaning comparison (witness search is testing).",
     },
+    "C11": {
+        "module": "ShapeVerif.Props.C11",
+        "theorems": ["ShapeVerif.serde_roundtrip", "ShapeVerif.display_inj", "ShapeVerif.display_deterministic",
+                     "ShapeVerif.prefixFree_aux"],
+        "statements": {
+            "serde_roundtrip": "s.wf → deserialize (serJ s) = some s   (tree level: externally tagged enum, maps as objects, sets as sequences re-inserted on read)",
+            "display_inj": "identKeys a → identKeys b → display a = display b → a = b   (character level; Display texts form a prefix code)",
+        },
+        "rule": "every shape of the small-scope and depth-2 universes + random shapes to depth 4 (+ objects whose keys need JSON escaping): Display text, serde_json::to_string text (compared byte for byte with the model's rendering), round trip through text and through serde_json::Value, determinism (serialised twice, via Value, Display twice); among shapes with identifier-like keys no two print the same text. Non-trivial = container shape.",
+        "assumptions": ["serde_json's text layer (escaping, parsing) and serde's derive representation are trusted; the model's rendering is compared with the real output byte for byte",
+                        "Display of non-ASCII member names consults Unicode tables (char::is_alphanumeric): outside the modelled fragment, skipped in the comparison; injectivity is claimed for [A-Za-z0-9_-]+ keys as the property states"],
+        "level_text": "serde_roundtrip (for every well-formed shape, reading back the serialised tree yields the shape) and display_inj (for identifier-like member names the Display text determines the shape; proved at character level by showing Display texts form a prefix code) are Lean theorems over all shapes. The model's Display and JSON text are compared with the real output on every run; round trip, determinism and injectivity are re-checked on the real code.",
+        "level_note": "Trusted: Lean kernel; model of Display (value.rs) and of the derived Serialize/Deserialize representation; serde/serde_json themselves.",
+    },
     "C10": {
         "module": "ShapeVerif.Props.C10",
         "theorems": ["ShapeVerif.subset_refl", "ShapeVerif.subset_as_optional",
@@ -230,9 +244,34 @@ def expect_ok(got, want):
     return got == want
 
 
+def ident_keys(sx):
+    """all member names (hex after `(k`) are in [A-Za-z0-9_-]+"""
+    import re
+    for h in re.findall(r"\(k([0-9a-f]*) ", sx):
+        try:
+            k = bytes.fromhex(h).decode()
+        except Exception:
+            return False
+        if not re.fullmatch(r"[A-Za-z0-9_-]+", k):
+            return False
+    return True
+
+
 def direct_oracle(pid, ops, impl):
     """Property checks decided on the implementation's answers alone (no reference evaluation)."""
     fails = []
+    if pid == "C11":
+        # Display injectivity on the implementation: among shapes with identifier-like keys no two
+        # different shapes print the same text
+        seen = {}
+        import re
+        for o, r in zip(ops, impl):
+            f = o.split("\t")
+            if f[0] == "display" and ident_keys(f[1]):
+                if r in seen and seen[r] != f[1]:
+                    fails.append({"op": o, "impl": r, "expected": "a text different from that of " + seen[r],
+                                  "why": "two different shapes with identifier-like keys print the same Display text"})
+                seen.setdefault(r, f[1])
     if pid in ("C06", "C17"):
         # consecutive (inferdoc t, inferv t) pairs on the same text must agree
         for j in range(len(ops) - 1):
